@@ -273,6 +273,36 @@ def run(ctx):
                           {"what": "threaded!=serial"})
         if before != after:
             ctx.violation("threaded assembly modified the basis arrays", inp, {"what": "inputs-modified"})
+    # (c2) facet bases and integrands built from GRADIENTS: functions whose values vanish identically on the facet
+    # (bubbles, interior nodes) still contribute through their derivatives - every pair is computed
+    import skfem as _sk
+    from skfem import FacetBasis as _FB
+
+    def gform(u, v, w):
+        return sum(u.grad[i] * w.n[i] for i in range(len(w.n))) * v + u * sum(v.grad[i] * w.n[i] for i in range(len(w.n))) \
+            + 0.5 * u * v
+    for mk_, els in ((lambda: _sk.MeshTri1().refined(1), [_sk.ElementTriMini, _sk.ElementTriCCR, _sk.ElementTriP2]),
+                     (lambda: _sk.MeshQuad1().refined(1), [_sk.ElementQuad2, _sk.ElementQuadS2]),
+                     (lambda: _sk.MeshTet1(), [_sk.ElementTetMini, _sk.ElementTetP2])):
+        for E_ in els:
+            if ctx.time_left(0.985) < 0:
+                break
+            try:
+                fbb = _FB(mk_(), E_(), intorder=3)
+                B = BilinearForm(gform)._assemble(fbb, fbb)
+                for nthr in (1, 2, 3, fbb.Nbfun ** 2 + 1):
+                    Athr = BilinearForm(gform, nthreads=nthr)._assemble(fbb, fbb)
+                    ctx.case({"facet-gradient-form": E_.__name__, "n": nthr}, nontrivial=True)
+                    ctx.count("facet-basis-gradient-form")
+                    if not (np.array_equal(Athr[0], B[0]) and Athr[1].tobytes() == B[1].tobytes() and Athr[2] == B[2]):
+                        ctx.violation("threaded assembly of a gradient-based form on a facet basis differs from serial "
+                                      "assembly", {"element": E_.__name__, "nthreads": nthr,
+                                                   "zero_columns_threaded": int((np.abs(Athr[1].reshape(fbb.Nbfun, fbb.Nbfun, -1)).sum(axis=(1, 2)) == 0).sum())},
+                                      {"what": "threaded!=serial", "facet": True})
+                        break
+            except Exception as ex:
+                ctx.violation("threaded facet assembly raised " + exc_kind(ex), {"element": E_.__name__, "err": repr(ex)},
+                              {"what": "raise-real"})
     # (d) ONE threaded form object assembled on a sequence of bases whose local sizes differ although the element
     # classes coincide (p-refinement, wrappers): every assembly equals the serial one of a fresh form
     import skfem
